@@ -1107,6 +1107,7 @@ def mon_fanout(ops, lines):
             return ("C01-foreign: %r received message %r at op %d, which was never published to its topic while it "
                     "existed" % (unhx(name), unhx(d.mid), idx))
         inst["by_ack"].setdefault(d.ack, (d.mid, idx))
+        inst["when"].setdefault(d.ack, (d.t, d.dl))
         inst["seen"].setdefault(d.mid, []).append((idx, d.ack))
         if drain_at is not None:
             inst["drained"].add(d.mid)
@@ -1120,7 +1121,7 @@ def mon_fanout(ops, lines):
             topic_inst.pop(ot[1], None)
         elif k == "CS" and code == "0":
             sub_inst[ot[1]] = {"topic": topic_inst.get(ot[2]), "posted": set(), "allowed": set(), "acked": [],
-                               "by_ack": {}, "seen": {}, "drained": set(), "empty": False, "unsure": False}
+                               "by_ack": {}, "seen": {}, "when": {}, "modified": set(), "drained": set(), "empty": False, "unsure": False}
         elif k == "DS" and code == "0":
             sub_inst.pop(ot[1], None)
         elif k in ("PUB", "PUBN") and code == "0":
@@ -1152,11 +1153,16 @@ def mon_fanout(ops, lines):
         if k in ("ACK",) and code == "0":
             inst = sub_inst.get(ot[1])
             if inst:
-                inst["acked"] += [(ack_value(a), idx) for a in ev["ids"] if is_u64(a)]
+                inst["acked"] += [(ack_value(a), idx, ev["t"]) for a in ev["ids"] if is_u64(a)]
+        if k == "MOD":
+            inst = sub_inst.get(ot[1])
+            if inst:
+                inst["modified"].update(ack_value(a) for a in ev.get("ids", []) if is_u64(a))
         if k == "SS":
             name, inst = stream_inst.get(ot[1], (None, None))
             if inst:
-                inst["acked"] += [(ack_value(a), idx) for a in ev["acks"] if is_u64(a)]
+                inst["acked"] += [(ack_value(a), idx, ev["t"]) for a in ev["acks"] if is_u64(a)]
+                inst["modified"].update(ack_value(a) for a in ev.get("mods", []) if is_u64(a))
         for d in ev.get("msgs", []):
             inst = sub_inst.get(d.sub)
             w = deliver(inst, d.sub, d, idx)
@@ -1183,10 +1189,17 @@ def mon_fanout(ops, lines):
         # ... and an ack id is inert (C04) once the script has seen the message handed out again under a newer id
         by_val = {ack_value(ack): (ack, v) for ack, v in inst["by_ack"].items() if is_u64(ack)}
         acked = set()
-        for val, ia in inst["acked"]:
+        # ... or once its lease has certainly run out: it was never named in a modification, and the acknowledgement
+        # was issued more than the promised lease (+ 100 ms of rounding, + 100 ms) after the script saw the delivery
+        for val, ia, ta in inst["acked"]:
             if val not in by_val:
                 continue
             ack, (mid, di) = by_val[val]
+            t0, dl = inst["when"].get(ack, (None, None))
+            expired = (t0 is not None and dl and val not in inst["modified"] and di < ia
+                       and ta > t0 + int(dl) * 10 ** 9 + 200 * 10 ** 6)
+            if expired:
+                continue
             if not any(di < j < ia and a2 != ack for j, a2 in inst["seen"].get(mid, [])):
                 acked.add(mid)
         lost = inst["posted"] - acked - inst["drained"]
